@@ -7,6 +7,7 @@ import ScVerif.C09.Seed
 import ScVerif.C09.Mixed
 import ScVerif.C09.Bus
 import ScVerif.C09.Writers
+import ScVerif.C09.ReadOpts
 /-! Driver handler for C09.
 
 * `merge <a> <b>`                 → `mergeChanges a b` (`drop` when `send == false`)
@@ -49,6 +50,9 @@ import ScVerif.C09.Writers
 * `wrun <id=val,…|-> <move>*`     several writers on one collection (`wstep`, Writers.lean): moves `u:<id>:<val>` (an Update / Add
                                   commits; its event is pending) / `p<n>` (the n-th pending event is published) / `x:<id>` (Delete:
                                   commit and publication together) → the events in the order the bus gets them
+* `ropts <opt>*`                  `ComputeReadConfig` over the read options in the order given (`bp1|bp0` = WithBackpressure,
+                                  `uo1|uo0` = WithUpdatesOnly, `e` = an option that touches neither) and the branch in `onUpdate`
+                                  (ReadOpts.lean) → `bp=<0|1> uo=<0|1> path=<lossy|blocking>`
 * `set <deadline> <listener>*`    `Value.set` after its commit: `Bus.Send` as above, then the error mapping
                                   (`setReturnsError`) → `error@<t>` or `ok@<t>`
 -/
@@ -456,6 +460,10 @@ def handle? (toks : List String) : Option String :=
     let dl ← parseNat? dl
     let ls ← ls.mapM parseListener?
     pure ((if setReturnsError dl ls then "error@" else "ok@") ++ toString (busSend dl 0 ls).time)
+  | "ropts" :: os => do
+    let os ← os.mapM parseROpt?
+    let rr := computeReadConfig os
+    pure ("bp=" ++ showBool rr.backpressure ++ " uo=" ++ showBool rr.updatesOnly ++ " path=" ++ showPath (pathOf rr))
   | ["merge", a, b] => do
     let a ← parseChange? a
     let b ← parseChange? b
